@@ -276,4 +276,57 @@ pub fn mcopy(""")),
       old="""    EthAddress(hash_20(rt, &[&[0xff], &from.0[..], salt, &inithash].concat()))""",
       new="""    let _ = salt;
     EthAddress(hash_20(rt, &[&[0xff], &from.0[..], &inithash].concat()))""", expect=r'create2-formula'),
+
+ # ---------------- C19
+ dict(id='C19-tstore-not-dirty', pid='C19', file='actors/evm/src/interpreter/system.rs',
+      old="""        if changed {
+            self.saved_state_root = None; // Mark state as dirty
+        }
+""", new="""        let _ = changed;
+""", expect=r'dirty:set_transient_storage'),
+ dict(id='C19-nonce-not-dirty', pid='C19', file='actors/evm/src/interpreter/system.rs',
+      old="""    pub fn increment_nonce(&mut self) {
+        self.saved_state_root = None;""", new="""    pub fn increment_nonce(&mut self) {""", expect=r'dirty:increment_nonce|saved_state_root'),
+ dict(id='C19-no-reload', pid='C19', file='actors/evm/src/interpreter/system.rs',
+      old="""            Ok(r) if r.exit_code.is_success() => self.reload()?,""",
+      new="""            Ok(r) if r.exit_code.is_success() && !self.readonly => {}""", expect=r'send_raw:reload'),
+ dict(id='C19-raw-send-bypass', pid='C19', file='actors/evm/src/interpreter/system.rs',
+      old="""        let result = self.send_raw(to, method, params, value, gas_limit, send_flags)?.map_err(|err| {""",
+      new="""        let result = Ok::<_, ActorError>(self.rt.send(to, method, params, value, gas_limit, send_flags).map_err(|e| e.0))?.map_err(|err| {""",
+      expect=r'Runtime::send\* in evm|System::send->send_raw'),
+ dict(id='C19-lifespan-by-caller', pid='C19', file='actors/evm/src/interpreter/system.rs',
+      old="""        origin: rt.message().origin().id().unwrap(),
+        nonce: rt.message().nonce(),
+    }
+}""", new="""        origin: rt.message().caller().id().unwrap(),
+        nonce: rt.message().nonce(),
+    }
+}""", expect=r'TransientDataLifespan:origin'),
+ dict(id='C19-flush-drops-tombstone', pid='C19', file='actors/evm/src/interpreter/system.rs',
+      old="""                    nonce: self.nonce,
+                    tombstone: self.tombstone,
+                },
+                Code::Blake2b256,""", new="""                    nonce: self.nonce,
+                    tombstone: None,
+                },
+                Code::Blake2b256,""", expect=r'flush:persists:tombstone'),
+ dict(id='C19-revert-flushes', pid='C19', file='actors/evm/src/lib.rs',
+      old="""    match output.outcome {
+        Outcome::Return => {
+            system.flush()?;
+            Ok(output.return_data.to_vec())
+        }""", new="""    match output.outcome {
+        Outcome::Return => {
+            Ok(output.return_data.to_vec())
+        }""", expect=r'invoke:flush-before-return'),
+ dict(id='C19-delegate-caller-self', pid='C19', file='actors/evm/src/interpreter/instructions/call.rs',
+      old="""                                caller: state.caller,
+                                value: state.value_received.clone(),""",
+      new="""                                caller: state.receiver,
+                                value: state.value_received.clone(),""", expect=r'delegatecall:caller'),
+ dict(id='C19-load-stale-transient', pid='C19', file='actors/evm/src/interpreter/system.rs',
+      old="""            Some(transient_data)
+                if current_transient_data_lifespan == transient_data.transient_data_lifespan =>""",
+      new="""            Some(transient_data)
+                if current_transient_data_lifespan.origin == transient_data.transient_data_lifespan.origin =>""", expect=r'load:transient-only-same-lifespan'),
 ]
